@@ -69,6 +69,20 @@ def run_case(arg):
         with core.Scratch("c03") as work:
             r = core.rng_for(PROP, kind, idx)
             c = packcase.rand_config(r, small=True)
+            if kind == "dirsize":
+                tree, c, res, img = c01.dirsize_case(binaries, c01.DIRSIZE_TARGETS[idx], work, oc)
+                feats = {"dir-listing-%d-bytes" % c01.DIRSIZE_TARGETS[idx]}
+                oc.features = tuple(feats)
+                oc.sample = {"case": "dir-listing-%d-bytes" % c01.DIRSIZE_TARGETS[idx]}
+                if res.san:
+                    oc.violate("c03:" + res.san, "gensquashfs", {"stderr.txt": res.err})
+                    return oc
+                if res.hang or res.rc != 0:
+                    oc.inconclusive.append("pack failed rc=%s %s" % (res.rc, res.err[-200:]))
+                    return oc
+                packcase.decode_and_compare(binaries, img, packcase.expected_for(tree, c), tree, c, work, oc, r, cli=False, unpack=False)
+                oc.inc("images")
+                return oc
             if kind == "layout":
                 lk = LAYOUT_KINDS[idx % len(LAYOUT_KINDS)]
                 if lk == "many-frag-blocks":
@@ -120,7 +134,8 @@ def main(tier):
                       "distinct = distinct (layout kind, compressor, block size, options) vectors; the validator's rule evaluations are counted per rule")
     build.build("asan")
     nl, nr = (35, 115) if tier == "quick" else (350, 2200)
-    items = [("layout", i, tier) for i in range(nl)] + [("random", i, tier) for i in range(nr)]
+    items = [("layout", i, tier) for i in range(nl)] + [("dirsize", i, tier) for i in range(len(c01.DIRSIZE_TARGETS))] + \
+        [("random", i, tier) for i in range(nr)]
     only = os.environ.get("VERIF_ONLY")
     if only:
         k, i = only.split(":")
